@@ -178,12 +178,17 @@ def fixed_point_bounded_instance():
         init = np.broadcast_to(init, (F, K, N)).copy()
         if model in ('gcacgmm', 'vmfcacgmm'):
             cls = GCACGMMTrainer if model == 'gcacgmm' else VMFCACGMMTrainer
-            m = cls().fit(y, emb, initialization=init, iterations=it)
+            # (the inline alignment between the two streams is an option of the integration models)
+            m = cls().fit(y, emb, initialization=init, iterations=it, inline_permutation_alignment=bool(inp['seed'] % 2))
             post = m.predict(y, emb)
             param = m.cacg.covariance_eigenvectors[..., -1]
         else:
             cls = {'cacgmm': CACGMMTrainer, 'cwmm': CWMMTrainer, 'cbmm': CBMMTrainer, 'gmm': GMMTrainer, 'vmfmm': VMFMMTrainer}[model]
-            m = cls().fit(y, initialization=init, iterations=it)
+            if model == 'cbmm' and inp['seed'] % 2:
+                tr_ = CBMMTrainer(max_concentration=[1e5, 500.0, 50.0][inp['seed'] % 3])       # a finite concentration cap
+            else:
+                tr_ = cls()
+            m = tr_.fit(y, initialization=init, iterations=it)
             post = m.predict(y)
             if model == 'cacgmm':
                 param = m.cacg.covariance_eigenvectors[..., -1]
